@@ -1,6 +1,7 @@
 import Mdsort.Model.Flags
 import Mdsort.Model.Scripts
 import Mdsort.Proofs.LimitsText
+import Mdsort.Proofs.LimitsSticky
 import Mdsort.Proofs.L0RefineUtil
 import Mdsort.Proofs.ConfErrors
 import Mdsort.Proofs.MainText
@@ -380,6 +381,138 @@ theorem C18_L0_truncation_never_used (path : Buf) (hp : path.bytes.back? = some 
       rw [← hrel] at this
       cases this
     · omega
+
+/-! ## over-long paths that arise in the MIDDLE of an action list
+
+`match_interpolate` has already `strlcpy`-truncated `mh_path` when it reports the over-long destination; what keeps
+`matches_exec` away from that truncation is that `matches_interpolate` stops at the first failure and reports it whatever
+the remaining entries do (`error = 1; break;`).  The model's `matchesInterpolate` has that order and stop behaviour (tied to
+match.c by the `eval` request of the unit harness with a failing entry followed by succeeding ones, and by the position
+family of the process stage); here it is proved for all limits. -/
+
+/-- **`C18_interpolation_failure_is_sticky`**: for every match list, all limits: if `match_interpolate` fails for ANY
+entry `i` of the list (judged on the list as it is handed to `matches_interpolate`, with any message `msgs0` - whether an
+entry can be interpolated depends neither on the message nor on what the interpolation of earlier entries stored) then
+`matches_interpolate` fails as a whole, whatever entries follow and whether they can be interpolated. -/
+theorem C18_interpolation_failure_is_sticky (L : Limits) (env : Env) (ml : MatchList) (msgs msgs0 : Nat → Msg) (i : Nat) (mh : Match)
+    (hi : ml[i]? = some mh)
+    (hf : matchInterpolateL L (some [(ofString "path", env.path)]) ml i mh msgs0 = none) :
+    matchesInterpolateL L env ml msgs = none :=
+  matchesInterpolateL_none_of_entry L env ml msgs msgs0 i mh hi hf
+
+/-- The same for the functions the correspondence run compares with match.c (`PATH_MAX` = 4096). -/
+theorem C18_interpolation_failure_is_sticky_platform (env : Env) (ml : MatchList) (msgs msgs0 : Nat → Msg) (i : Nat) (mh : Match)
+    (hi : ml[i]? = some mh)
+    (hf : matchInterpolate (some [(ofString "path", env.path)]) ml i mh msgs0 = none) :
+    matchesInterpolate env ml msgs = none := by
+  rw [← matchesInterpolateL_std]
+  exact matchesInterpolateL_none_of_entry stdLimits env ml msgs msgs0 i mh hi (by rw [matchInterpolateL_std]; exact hf)
+
+/-- **What "fails" means**, exactly: `matches_interpolate` fails IFF for some entry a template cannot be interpolated
+(reference to a group that does not exist, unknown macro, unterminated `${`: `C12_backref_lookup`, `C12_interpolate`) or
+the entry is a `move` / `isdirectory` whose INTERPOLATED path does not fit the path buffer.  (The strings of `flag`,
+`flags`, `discard`, ... are not interpolated: those entries never fail here; their paths were measured when the entry was
+appended, `C18_literal_paths_tested_at_use`.) -/
+theorem C18_interpolation_fails_iff (L : Limits) (env : Env) (ml : MatchList) (msgs : Nat → Msg) :
+    matchesInterpolateL L env ml msgs = none ↔
+      ∃ (i : Nat) (mh : Match), ml[i]? = some mh ∧
+        ((∃ t ∈ Proofs.templates mh, interpolate (ml.take i) (some [(ofString "path", env.path)]) t = none) ∨
+         ((mh.ty = .move ∨ mh.ty = .stat) ∧
+            ∃ p, interpolate (ml.take i) (some [(ofString "path", env.path)]) mh.path = some p ∧ L.pathMax.fits p.length = false)) := by
+  rw [matchesInterpolateL_none_iff]
+  constructor
+  · rintro ⟨i, mh, hi, hf⟩
+    exact ⟨i, mh, hi, (matchInterpolateL_none_iff L _ ml i mh msgs).mp (hf msgs)⟩
+  · rintro ⟨i, mh, hi, h⟩
+    exact ⟨i, mh, hi, fun msgs0 => (matchInterpolateL_none_iff L _ ml i mh msgs0).mpr h⟩
+
+/-- **The over-long case, explicitly**: a `move` (or `isdirectory`) entry ANYWHERE in the list whose interpolated path has
+`p.length` characters and does not fit the path buffer of `L`: `matches_interpolate` fails, whatever follows the entry
+(a `label`, an `add-header`, an `exec`, the actions of a later rule reached through `pass`). -/
+theorem C18_overlong_interpolation_fails_all (L : Limits) (env : Env) (ml : MatchList) (msgs : Nat → Msg) (i : Nat) (mh : Match)
+    (hi : ml[i]? = some mh) (hty : mh.ty = .move ∨ mh.ty = .stat) (p : Bytes)
+    (hp : interpolate (ml.take i) (some [(ofString "path", env.path)]) mh.path = some p)
+    (hfit : L.pathMax.fits p.length = false) :
+    matchesInterpolateL L env ml msgs = none :=
+  matchesInterpolateL_none_of_entry L env ml msgs msgs i mh hi (matchInterpolateL_overlong L _ ml i mh msgs hty p hp hfit)
+
+/-- **... and then nothing is done with the message** (all limits, whatever the calls return): when the rules match and
+`match_interpolate` fails for some entry `i` of the resulting list - wherever it stands in the list -, `processMessageL`
+issues no mutating call and starts no process for that message: every call is `openat(O_RDONLY)` / `read` / `close`, after
+the parse phase only `close`; the outcome is the error flag, the files, the log and the maildir unchanged.  In particular no
+call names `mh_path` (neither the intended path nor a truncation of it) and no later action of the list is executed. -/
+theorem C18_interpolation_failure_no_effect (L : Limits) (env : PEnv) (orc : EvalOracles) (expr : Expr) (md : Maildir) (name : Bytes)
+    (st : MainSt) (d : Handle) (content p n : Bytes) (mf : MFlags) (i : Nat) (mh : Match) (msgs0 : Nat → Msg)
+    (hd : md.dirH = some d) (hf : st.files.get md.path name = some content)
+    (hp : pathjoinL L.pathMax md.path name = some p) (hn : strlcpyL L.nameMax1 name = some n)
+    (hmf : flagsParse n = some mf)
+    (hev : (evalL L (Proofs.msgEnv env orc p) (parseMessage content) expr 0 (parseMessage content)
+      { ml := [], flags := mf }).1 = .match)
+    (hi : (evalL L (Proofs.msgEnv env orc p) (parseMessage content) expr 0 (parseMessage content)
+      { ml := [], flags := mf }).2.ml[i]? = some mh)
+    (hfail : matchInterpolateL L (some [(ofString "path", p)])
+      (evalL L (Proofs.msgEnv env orc p) (parseMessage content) expr 0 (parseMessage content) { ml := [], flags := mf }).2.ml
+      i mh msgs0 = none)
+    (orcl : Nat → Call → Res) :
+    (runOracle orcl (processMessageL L env orc expr md name st) 0 []).1 = ({ st with error := true }, md) ∧
+    (∀ x ∈ (runOracle orcl (processMessageL L env orc expr md name st) 0 []).2,
+      ((∃ nm, x.1 = .openRd d nm) ∨ (∃ fd, x.1 = .read fd) ∨ ∃ fd, x.1 = .close fd) ∧
+        x.1.mutating = false ∧ x.1 ≠ .fork) ∧
+    ∃ T, (runOracle orcl (processMessageL L env orc expr md name st) 0 []).2 =
+        (runOracle orcl (messageParsePL L d md.path name content) 0 []).2 ++ T ∧ ∀ x ∈ T, ∃ fd, x.1 = .close fd := by
+  cases h : evalL L (Proofs.msgEnv env orc p) (parseMessage content) expr 0 (parseMessage content) { ml := [], flags := mf } with
+  | mk tri est =>
+    rw [h] at hev hi hfail
+    simp only at hev hi hfail
+    subst hev
+    exact processMessageL_interp_error_run L env orc expr md name st d content p n mf est hd hf hp hn hmf h
+      (matchesInterpolateL_none_of_entry L (Proofs.msgEnv env orc p) est.ml _ msgs0 i mh hi hfail) orcl
+
+/-- Oracles for the example: every pattern matches its subject with group 0 = group 1 = the first 8 bytes. -/
+def C18_exampleOracles : EvalOracles :=
+  { rx := fun _ _ => .ok [some (0, 8), some (0, 8)], strptime := fun _ => none, zoneName := fun _ => none }
+
+/-- Non-vacuity: `match header "X-Tail" /(.*)/ move "/d/\1" label "x"` on a message with `X-Tail: abcdefgh`, path buffer
+of 12 bytes.  The rules match; the list is `[match, header, move, label]`; the `move` entry (position 2, NOT the last) has the
+template `/d/\1/new` (9 characters: fits) and the interpolated path `/d/abcdefgh/new` (15 characters: does not fit), its
+`match_interpolate` fails; the `label` entry AFTER it can be interpolated on its own - and the list as a whole fails, so
+the hypotheses of `C18_interpolation_failure_no_effect` hold.  Under ideal strings the same list is interpolated in full
+(destination `/d/abcdefgh/new`; the `label` entry carries the maildir of the message, `/m/new`). -/
+example :
+    let L : Limits := { pathMax := .fin 12, nameMax1 := .fin 8, hostMax := .inf }
+    let content := ofString "X-Tail: abcdefgh\n\nb\n"
+    let expr : Expr := .mtch 1 (.header 1 [ofString "X-Tail"] { src := ofString "(.*)" })
+      (.and 1 (.move 1 (ofString "/d/\\1")) (.label 1 [ofString "x"]))
+    let p := ofString "/m/new/1"
+    let ev := fun L => evalL L (Proofs.msgEnv Proofs.examplePEnv C18_exampleOracles p) (parseMessage content) expr 0
+      (parseMessage content) { ml := [], flags := MFlags.empty }
+    let msgs := partMsg (parseMessage content) ((getAttachments (parseMessage content)).getD [])
+    pathjoinL L.pathMax (ofString "/m/new") (ofString "1") = some p ∧
+    strlcpyL L.nameMax1 (ofString "1") = some (ofString "1") ∧ flagsParse (ofString "1") = some MFlags.empty ∧
+    (ev L).1 = .match ∧
+    (ev L).2.ml.map (·.ty) = [.mtch, .header, .move, .label] ∧
+    ((ev L).2.ml[2]?).map (·.path) = some (ofString "/d/\\1/new") ∧
+    (((ev L).2.ml[2]?).map fun mh => (matchInterpolateL L (some [(ofString "path", p)]) (ev L).2.ml 2 mh msgs).isNone) = some true ∧
+    (((ev L).2.ml[3]?).map fun mh => (matchInterpolateL L (some [(ofString "path", p)]) (ev L).2.ml 3 mh msgs).isSome) = some true ∧
+    matchesInterpolateL L (Proofs.msgEnv Proofs.examplePEnv C18_exampleOracles p) (ev L).2.ml msgs = none ∧
+    ((matchesInterpolateL Limits.unbounded (Proofs.msgEnv Proofs.examplePEnv C18_exampleOracles p) (ev Limits.unbounded).2.ml msgs).map
+      fun r => r.1.map (·.path)) = some [[], [], ofString "/d/abcdefgh/new", ofString "/m/new"] := by
+  intro L content expr p ev msgs
+  simp only [ev, expr, evalL]
+  simp only [L, content, p, msgs]
+  decide +kernel
+
+/-- Non-vacuity of the platform form with the other kind of failure: `move "/d/\\1"` where the rule has no capturing
+pattern (invalid back-reference), followed by a label that can be interpolated: entry 1 fails, entry 2 does not, the
+list fails. -/
+example :
+    let ml : MatchList := [{ ty := .mtch, lno := 1, part := 0 }, { ty := .move, lno := 1, part := 0, path := ofString "/d/\\1/new" },
+                           { ty := .label, lno := 1, part := 0, strings := [ofString "x"] }]
+    let msgs : Nat → Msg := fun _ => { headers := [], body := [] }
+    ((ml[1]?).map fun mh => (matchInterpolate (some [(ofString "path", Proofs.exampleEnv.path)]) ml 1 mh msgs).isNone) = some true ∧
+    ((ml[2]?).map fun mh => (matchInterpolate (some [(ofString "path", Proofs.exampleEnv.path)]) ml 2 mh msgs).isSome) = some true ∧
+    matchesInterpolate Proofs.exampleEnv ml msgs = none := by
+  decide +kernel
 
 /-! ## non-vacuity and examples -/
 
